@@ -24,7 +24,7 @@ def _is_data_param(ana, fi, p) -> bool:
     return True
 
 
-@rule("C19", "R1", "OWN", "no mutation site reachable from a public entry point may write an array or list owned by the caller", floor=10)
+@rule("C19", "R1", "OWN", "no mutation site reachable from a public entry point may write an array or list owned by the caller", floor=10, evidence=True)
 def r1(ctx):
     ana = ctx.ana
     for q in ENTRIES:
@@ -58,7 +58,7 @@ def r1(ctx):
             ctx.note(f"{short(q)}: callee with unknown effect assumed pure: {u}")
 
 
-@rule("C19", "R2", "PURE", "nothing caller-owned is retained in memoised results or module-level objects", floor=2)
+@rule("C19", "R2", "PURE", "nothing caller-owned is retained in memoised results or module-level objects", floor=2, evidence=True)
 def r2(ctx):
     ana = ctx.ana
     for q in ENTRIES[:3]:
